@@ -454,90 +454,100 @@ func carriesVal(e, v ssa.Value) bool {
 // member of the returned struct that designates mutable tree parts comes from a copy() call, never from the
 // receiver's own reference (a whole-struct copy `*i` aliases them).
 func r15e(c *an.Ctx) {
-	c.Rule("R15e", "iteratorRole.copy / aggregator.copy: template, range specifier and child roles of the copy are themselves copies", 2)
-	check := func(fnName string, fields []string) {
-		fn := c.MustFn("core/workflow", fnName)
-		if fn == nil {
-			return
+	c.Rule("R15e", "iteratorRole.copy / aggregator.copy / roleBase.copy: template, range specifier, child roles and variable stores of the copy are themselves copies", 3)
+	check := func(fnName string, fields []string) { copiedMembers(c, fnName, fields) }
+	check("iteratorRole.copy", []string{"template", "For", "aggregator"})
+	check("aggregator.copy", []string{"Roles"})
+	check("roleBase.copy", []string{"Defaults", "Vars", "UserVars"})
+}
+
+// copiedMembers: the struct returned by core/workflow.<fnName> (a copy() method) has each of the named members
+// assigned from a copy()/Copy() of the original's, never the original's own reference.
+func copiedMembers(c *an.Ctx, fnName string, fields []string) {
+	fn := c.MustFn("core/workflow", fnName)
+	if fn == nil {
+		return
+	}
+	c.Subject()
+	recv := fn.Params[0]
+	// the struct being returned
+	var lit *ssa.Alloc
+	for _, r := range an.Returns(fn) {
+		for _, l := range an.BackSlice(an.RetVal(r, 0), an.SliceOpts{}) {
+			_ = l
 		}
-		c.Subject()
-		recv := fn.Params[0]
-		// the struct being returned
-		var lit *ssa.Alloc
-		for _, r := range an.Returns(fn) {
-			for _, l := range an.BackSlice(an.RetVal(r, 0), an.SliceOpts{}) {
-				_ = l
+		if mi, ok := an.RetVal(r, 0).(*ssa.MakeInterface); ok {
+			if al, isAl := mi.X.(*ssa.Alloc); isAl {
+				lit = al
 			}
-			if mi, ok := an.RetVal(r, 0).(*ssa.MakeInterface); ok {
-				if al, isAl := mi.X.(*ssa.Alloc); isAl {
-					lit = al
-				}
+		}
+	}
+	if lit == nil {
+		c.Ob("core/workflow."+fnName+"|members-copied", fn.Pos(), false, "cannot find the struct returned by copy()")
+		return
+	}
+	var bad []string
+	// whole-struct store from the receiver?
+	whole := false
+	for _, r := range *lit.Referrers() {
+		if st, ok := r.(*ssa.Store); ok && st.Addr == ssa.Value(lit) {
+			if ld, isLd := st.Val.(*ssa.UnOp); isLd && ld.X == ssa.Value(recv) {
+				whole = true
 			}
 		}
-		if lit == nil {
-			c.Ob("core/workflow."+fnName+"|members-copied", fn.Pos(), false, "cannot find the struct returned by copy()")
-			return
-		}
-		var bad []string
-		// whole-struct store from the receiver?
-		whole := false
+	}
+	for _, fld := range fields {
+		okF := false
 		for _, r := range *lit.Referrers() {
-			if st, ok := r.(*ssa.Store); ok && st.Addr == ssa.Value(lit) {
-				if ld, isLd := st.Val.(*ssa.UnOp); isLd && ld.X == ssa.Value(recv) {
-					whole = true
-				}
+			fa, ok := r.(*ssa.FieldAddr)
+			if !ok || !isFieldNamed(fa, fld) || fa.Referrers() == nil {
+				continue
 			}
-		}
-		for _, fld := range fields {
-			okF := false
-			for _, r := range *lit.Referrers() {
-				fa, ok := r.(*ssa.FieldAddr)
-				if !ok || !isFieldNamed(fa, fld) || fa.Referrers() == nil {
+			for _, rr := range *fa.Referrers() {
+				st, isSt := rr.(*ssa.Store)
+				if !isSt {
 					continue
 				}
-				for _, rr := range *fa.Referrers() {
-					st, isSt := rr.(*ssa.Store)
-					if !isSt {
-						continue
+				fromCopy := false
+				for _, l := range an.BackSlice(st.Val, an.SliceOpts{LeafCall: func(n string, cl *ssa.Call) bool { return isCopyMethod(&cl.Call) }}) {
+					if l.Kind == "call" {
+						fromCopy = true
 					}
-					fromCopy := false
-					for _, l := range an.BackSlice(st.Val, an.SliceOpts{LeafCall: func(n string, cl *ssa.Call) bool { return an.MethodName(&cl.Call) == "copy" }}) {
-						if l.Kind == "call" {
-							fromCopy = true
-						}
-					}
-					// slice members: a fresh MakeSlice filled with copy() results
-					if mk, isMk := st.Val.(*ssa.MakeSlice); isMk {
-						_ = mk
-						an.Instrs(fn, func(in ssa.Instruction) {
-							if s2, ok := in.(*ssa.Store); ok {
-								if ia, isIA := s2.Addr.(*ssa.IndexAddr); isIA {
-									for _, l := range an.BackSlice(s2.Val, an.SliceOpts{LeafCall: func(n string, cl *ssa.Call) bool { return an.MethodName(&cl.Call) == "copy" }}) {
-										if l.Kind == "call" {
-											_ = ia
-											fromCopy = true
-										}
+				}
+				// slice members: a fresh MakeSlice filled with copy() results
+				if mk, isMk := st.Val.(*ssa.MakeSlice); isMk {
+					_ = mk
+					an.Instrs(fn, func(in ssa.Instruction) {
+						if s2, ok := in.(*ssa.Store); ok {
+							if ia, isIA := s2.Addr.(*ssa.IndexAddr); isIA {
+								for _, l := range an.BackSlice(s2.Val, an.SliceOpts{LeafCall: func(n string, cl *ssa.Call) bool { return isCopyMethod(&cl.Call) }}) {
+									if l.Kind == "call" {
+										_ = ia
+										fromCopy = true
 									}
 								}
 							}
-						})
-					}
-					if fromCopy {
-						okF = true
-					}
+						}
+					})
 				}
-			}
-			if !okF {
-				how := "is not assigned from a copy() of the original's"
-				if whole {
-					how = "is inherited by a whole-struct copy of the receiver and never replaced by a copy() of the original's"
+				if fromCopy {
+					okF = true
 				}
-				bad = append(bad, fld+" "+how)
 			}
 		}
-		c.Ob("core/workflow."+fnName+"|members-copied", fn.Pos(), len(bad) == 0,
-			"a copied role shares mutable parts with its original (%v): with concurrent template processing two copies re-parent and expand the same object, so the loaded tree depends on the schedule", bad)
+		if !okF {
+			how := "is not assigned from a copy() of the original's"
+			if whole {
+				how = "is inherited by a whole-struct copy of the receiver and never replaced by a copy() of the original's"
+			}
+			bad = append(bad, fld+" "+how)
+		}
 	}
-	check("iteratorRole.copy", []string{"template", "For", "aggregator"})
-	check("aggregator.copy", []string{"Roles"})
+	c.Ob("core/workflow."+fnName+"|members-copied", fn.Pos(), len(bad) == 0,
+		"a copied role shares mutable parts with its original (%v): with concurrent template processing two copies re-parent and expand the same object, so the loaded tree depends on the schedule; a shared variable store makes a value set on one expanded role visible on its siblings", bad)
+}
+
+func isCopyMethod(cc *ssa.CallCommon) bool {
+	n := an.MethodName(cc)
+	return n == "copy" || n == "Copy"
 }
